@@ -3,5 +3,5 @@ check("C13", "model_checking",
       "operations with runner, payload and daemon goroutines on one unit (plus a two-id configuration with forced id collisions); the real daemon is then driven with seeded "
       "3-client histories, a concurrent-submit burst and the TLC-found cancel-vs-completion schedule (SIGSTOP as gate); every sf_apply event of daemon and runner processes and every "
       "control-socket answer is checked, /proc decides CancelStops, the data directory ReleaseRemoves; each unit's rewrite stream is validated by TLC against WorkUnitTrace.tla and its status-file event stream against StatusFileTrace.tla.",
-      "Local command units only (no in-process or remote units). WorkUnitTrace.tla binds the status-rewrite stream (sf_apply) to WorkUnit's update table; the other life-cycle events are checked by Go oracles only. Cross-session answer order is not used.",
+      "Unit kinds: local command, remote (two real daemons), one in-process type (harness-built daemon variant); no kubernetes/python units. WorkUnitTrace.tla binds the status-rewrite stream (sf_apply) to WorkUnit's update table; the other life-cycle events are checked by Go oracles only. Cross-session answer order is not used.",
       "TLA+ spec + TLC exhaustive; randomized concurrent histories on the real binary with hook observers; TLC lead replay", "E3 daemon", "DESIGN.md section 6 C13")
